@@ -41,6 +41,8 @@ struct C14Case {
     step: Option<u32>,
     mode: Mode,
     snapshot: bool,
+    /// a valid partial RENUM (new, old, step) typed first: the judged RENUM is the second in a row
+    pre: Option<(u32, u32, u32)>,
     replies: Vec<String>,
     sched_variant: usize,
     entropy: u64,
@@ -236,11 +238,11 @@ impl C14Case {
 impl Case for C14Case {
     fn execute(&self) -> Verdict {
         let mut v = Verdict::default();
-        let typed = self.typed_program();
-        let lines = render_program(&typed);
+        let mut typed = self.typed_program();
+        let mut lines = render_program(&typed);
         let mut w = World::booted(sched(self.sched_variant), self.entropy, false);
         enter_program(&mut w, &lines);
-        let l0 = w.listing_text();
+        let mut l0 = w.listing_text();
         let l0_lines: Vec<String> = l0.lines().map(|s| s.to_string()).collect();
         let finish = |v: &mut Verdict, w: &World| {
             v.stats.merge(&w.stats);
@@ -258,6 +260,42 @@ impl Case for C14Case {
             v.discarded = Some("listing of the generated program is not a fixed point".into());
             finish(&mut v, &w);
             return v;
+        }
+        if let (Some((n, o, st)), Mode::Direct) = (self.pre, self.mode()) {
+            // a first, partial RENUM that the model accepts; from here on the program is its result
+            // (the result must be typeable for the twin: no line beyond the 1024-character limit)
+            let valid = model_renum(&typed, Some(n), Some(o), Some(st))
+                .filter(|(q, _)| q.lines.windows(2).all(|x| x[0].num < x[1].num))
+                .filter(|(q, _)| render_program(q).iter().all(|l| l.chars().count() <= 1000));
+            if let Some((q, _)) = valid {
+                let text = renum_text(Some(n), Some(o), Some(st));
+                let o1 = w.line(&text, &LineIo::budget(2000));
+                let errored = w.events[o1.ev_start..o1.ev_end].iter().any(|e| matches!(e, Ev::Errors(_) | Ev::TermError(_)));
+                let now = w.listing_text();
+                if let Some(f) = &w.fatal {
+                    v.violation = Some(fatal_violation("C14", f));
+                    finish(&mut v, &w);
+                    return v;
+                }
+                let expected = render_program(&q);
+                let got: Vec<String> = now.lines().map(|s| s.to_string()).collect();
+                if errored && now == l0 {
+                    w.stats.bump("c14.first_of_two_refused");
+                } else if errored || got != expected {
+                    let i = (0..got.len().min(expected.len())).find(|i| got[*i] != expected[*i]).unwrap_or(0);
+                    v.violation = Some(Violation {
+                        key: if errored { "C14:failed-but-changed".into() } else { "C14:renumbered:text:first-of-two".into() },
+                        detail: format!("{:?} (first of two): expected {:?} got {:?}", text, expected.get(i), got.get(i)),
+                    });
+                    finish(&mut v, &w);
+                    return v;
+                } else {
+                    w.stats.bump("c14.second_renum_in_a_row");
+                    typed = q;
+                    lines = expected;
+                    l0 = now;
+                }
+            }
         }
         if self.snapshot {
             w.snap_take();
@@ -477,6 +515,12 @@ impl Case for C14Case {
                 ..self.clone()
             }));
         }
+        if self.pre.is_some() {
+            out.push(Box::new(C14Case {
+                pre: None,
+                ..self.clone()
+            }));
+        }
         if self.step.is_some() {
             out.push(Box::new(C14Case {
                 step: None,
@@ -520,6 +564,7 @@ impl Case for C14Case {
             .set("replies", self.replies.clone())
             .set("quantum_schedule_variant", self.sched_variant)
             .set("entropy", self.entropy)
+            .set("first_partial_renum", match self.pre { Some((n, o, st)) => format!("RENUM {},{},{}", n, o, st), None => "none".to_string() })
             .build()
     }
 }
@@ -694,6 +739,15 @@ impl Property for C14 {
             step,
             mode,
             snapshot: rng.pct(30),
+            pre: if rng.pct(20) && nums.len() >= 2 {
+                // lines from a seeded one on move above all others; the lines below it keep their
+                // numbers (and their references to lines below old-start have nothing to replace)
+                let k = 1 + rng.usize(nums.len() - 1);
+                let st = *rng.pick(&[1u32, 10, 50]);
+                Some((last + *rng.pick(&[1u32, 10, 100]), nums[k], st))
+            } else {
+                None
+            },
             replies,
             sched_variant: rng.usize(3),
             entropy: rng.next_u64(),
@@ -712,7 +766,7 @@ impl Property for C14 {
         }
     }
     fn rule(&self) -> &'static str {
-        "one evaluation = a generated link-clean program (GOTO, GOSUB, IF..THEN n / ELSE n / IF..GOTO n, ON..GOTO, ON..GOSUB, RESTORE n, and on unreachable lines RUN n, LIST / DELETE in all range forms and bare; decoy numbers in PRINT, DATA, strings and remarks; non-ASCII literals and octal / hex / exponent / typed numeric literals in front of references; line 0; lines up to 65529) typed into the real runtime, optionally a get_listing() snapshot held, then RENUM in one of its eight argument forms with valid, overflowing, reordering, step-0 and out-of-range operands (5%: as the first program line + RUN; 5%: on a program with a dangling reference); verdict = (error reported AND listing unchanged) OR (no error AND listing equals the model renumbering of the AST, lines are found under their new numbers by LIST n and by the completion lookup, and typing a new number replaces that line), then RUN of original (fresh twin) and renumbered program with transcripts and final variables equal modulo the line map; distinct = distinct API/event log fingerprint; non-trivial = RENUM reached its verdict"
+        "one evaluation = a generated link-clean program (GOTO, GOSUB, IF..THEN n / ELSE n / IF..GOTO n, ON..GOTO, ON..GOSUB, RESTORE n, and on unreachable lines RUN n, LIST / DELETE in all range forms and bare; decoy numbers in PRINT, DATA, strings and remarks; non-ASCII literals and octal / hex / exponent / typed numeric literals in front of references; line 0; lines up to 65529) typed into the real runtime, optionally a get_listing() snapshot held, then (20%: after a first, valid partial RENUM that moves the lines from a seeded one on above all others) RENUM in one of its eight argument forms with valid, overflowing, reordering, step-0 and out-of-range operands (5%: as the first program line + RUN; 5%: on a program with a dangling reference); verdict = (error reported AND listing unchanged) OR (no error AND listing equals the model renumbering of the AST, lines are found under their new numbers by LIST n and by the completion lookup, and typing a new number replaces that line), then RUN of original (fresh twin) and renumbered program with transcripts and final variables equal modulo the line map; distinct = distinct API/event log fingerprint; non-trivial = RENUM reached its verdict"
     }
     fn assumptions(&self) -> Vec<&'static str> {
         vec![
